@@ -106,7 +106,8 @@ def classify(diags, w):
         for sp in d.get("spans", []):
             # a span inside a macro expansion (matches!, vec!, ...) -> use the macro call site
             lab0, prim0 = sp.get("label"), sp.get("is_primary")
-            while sp.get("expansion") and sp["expansion"].get("span"):
+            while (sp.get("expansion") and sp["expansion"].get("span")
+                   and str(sp["expansion"].get("macro_decl_name", "")).endswith("!")):
                 sp = dict(sp["expansion"]["span"])
                 sp["label"], sp["is_primary"] = lab0, prim0
             c = _clause_at(w.clauses, sp["line_start"], sp["line_end"])
